@@ -105,8 +105,13 @@ pub fn gen(rng: &mut Rng, tier: &str) -> String {
     let seq = random_seq(rng, len, alpha);
     let score = if p <= 4 && rng.chance(1, 2) {
         let n = 1usize << (2 * p);
-        let kind = rng.below(4);
+        let kind = rng.below(5);
         let t: Vec<usize> = match kind {
+            4 => {
+                // masking scores: some p-mers (sometimes all, sometimes all but one) get usize::MAX, others values next to it or small
+                let dens = *rng.pick(&[1usize, 2, 4, 1000]);
+                (0..n).map(|r| if rng.below(dens + 1) != 0 || dens == 1000 && r != 0 { usize::MAX } else { *rng.pick(&[usize::MAX - 1, 0, r, usize::MAX]) }).collect()
+            }
             0 => {
                 // random permutation
                 let mut v: Vec<usize> = (0..n).collect();
